@@ -159,7 +159,33 @@ def run(tier, seed, build, res):
                              'processing documents modified the module-level object '
                              '%s (it outlives the call)' % name))
     res.extra['module_level_objects_modified'] = sorted(CHANGED)
+    shell_files(res)
     server_histories(rng, res, 4 if tier == 'quick' else 30)
+
+
+def shell_files(res):
+    """several files on one command line of the shell: what is submitted to
+    the proofreader for a file is what is submitted when the file is given
+    alone (replacement file, definition file, multi-language mode)"""
+    files = {'a.tex': 'Eins so dass zwei \\xa{} drei.\n',
+             'b.tex': '\\usepackage{babel}Vier so dass five \\xa{} six seven eight.\n'
+                      '\\begin{otherlanguage}{german}\nEin langer deutscher Satz so dass es reicht.\n'
+                      '\\end{otherlanguage}\nNine so dass ten eleven twelve.\n',
+             'c.tex': 'Zehn so dass elf $x$ und $y$.\n',
+             'e.tex': 'Eins so dass zwei \\xa{} drei.\n',
+             'r.txt': 'so dass & sodass\n', 'd.tex': '\\newcommand{\\xa}{MAKRO}\n'}
+    for opts in (['--replace', 'r.txt'], ['--replace', 'r.txt', '--define', 'd.tex'],
+                 ['--replace', 'r.txt', '--multi-language'], ['--define', 'd.tex']):
+        names = ['a.tex', 'b.tex', 'c.tex', 'e.tex']
+        both = shellrun.run_shell(files, ['--language', 'en-GB'] + opts + names)
+        alone = [shellrun.run_shell(files, ['--language', 'en-GB'] + opts + [n]) for n in names]
+        res.count('shell-files', tuple(opts), nontrivial=True)
+        got = [c['text'] for c in both.calls]
+        want = [c['text'] for r in alone for c in r.calls]
+        if both.rc != 0 or got != want:
+            res.failures.append(('c17-files:%r' % (opts,), {'options': opts, 'files': names},
+                                 'files %r in one run are submitted as %r, one run per file '
+                                 'submits %r' % (names, got, want)))
 
 
 def server_histories(rng, res, n):
